@@ -112,7 +112,9 @@ OkFzC18(o) ==
         \* no context = default context
         /\ o.res[17] = o.res[1]
 
-Props == {"C01", "C02", "C03", "C04", "C10", "C18"}
+\* all properties judged on these records, or only the one named by the environment variable PROP
+AllProps == {"C01", "C02", "C03", "C04", "C10", "C18"}
+Props == IF "PROP" \in DOMAIN IOEnv /\ IOEnv.PROP \in AllProps THEN {IOEnv.PROP} ELSE AllProps
 Holds(p, cur, o) ==
     IF p = "C18" THEN (o.op = "fz" => OkFzC18(o))
     ELSE IF o.op = "rt"
